@@ -20,8 +20,11 @@ NamesOf(vals) == {vals[i].n : i \in 1..Len(vals)}
 DescribedNames(d) == {d.prog[d.root].fields[i].name : i \in {j \in 1..Len(d.prog[d.root].fields) :
                             d.prog[d.root].fields[j].k = "Int" /\ d.prog[d.root].fields[j].desc.kind # "none"}}
 FullDom(d) == ValsDom(d.prog, d.prog[d.root].fields, 1, IF d.kw = "small" THEN 0 ELSE 1)
+BitsNames(d) == {d.prog[d.root].fields[i].name : i \in {j \in 1..Len(d.prog[d.root].fields) : d.prog[d.root].fields[j].k = "Bits"}}
 KwargsOf(d) ==
     IF d.kw = "full" THEN FullDom(d)
+    \* ... and assignments in which one bit field holds None: that pack fails half-way through the run
+    ELSE IF d.kw = "fullbad" THEN FullDom(d) \cup {SetVal(full, n, NoneV) : full \in FullDom(d), n \in BitsNames(d)}
     ELSE IF d.kw = "small"      \* also without the described fields: they are then computed
     THEN FullDom(d) \cup {RestrictTo(full, NamesOf(full) \ DescribedNames(d)) : full \in FullDom(d)} \cup {<<>>}
     ELSE UNION {{RestrictTo(full, S) : S \in SUBSET NamesOf(full)} : full \in FullDom(d)}
@@ -65,6 +68,10 @@ U_C02(zz) ==
                      RefSelF("v", EF("t"), <<[key |-> 0, alt |-> IntF("", 2, FALSE, "default")], [key |-> 1, alt |-> DataF("", SzConst(1))],
                                              [key |-> 2, alt |-> RefF("", "C1")]>>, fm, IntV(0)), U1("z")>>), C1 |-> Sub1], "full", 1, FALSE) :
              fm \in {"chooses", "lambda"}}
+    \* a field selected at run time takes the class defaults (byte order) of the class it is selected in
+    \cup {VDecl([C0 |-> Class([DefaultOpts EXCEPT !.endian = "little"], <<U1("t"),
+                     RefSelF("v", EF("t"), <<[key |-> 0, alt |-> IntF("", 2, FALSE, "default")], [key |-> 1, alt |-> IntF("", 3, TRUE, "default")]>>,
+                             fm, IntV(0)), U1("z")>>)], "full", 1, FALSE) : fm \in {"chooses", "lambda"}}
     \cup {VDecl([C0 |-> Class([DefaultOpts EXCEPT !.endian = "little"], <<IntF("a", 2, FALSE, "default"), RefF("s", "C1"), BitsF("h", 4), BitsF("l", 12)>>),
                  C1 |-> Class(DefaultOpts, <<IntF("x", 2, FALSE, "default"), DataF("d", SzMarker(<<0>>, FALSE, TRUE))>>)], "full", 1, FALSE)}
 
@@ -77,6 +84,10 @@ U_C02_Pos(zz) ==
                MvField(U1("z"), [kind |-> "shift", arg |-> SzConst(sh), ref |-> "current-offset"]), EmF("tail")>>, "full", FALSE) :
               al \in {2, 4}, sh \in {0, 2}}
     \cup {V1(BitFields(<<4, 4>>) \o <<U1("z")>>, "full", TRUE), V1(BitFields(<<3, 10, 3>>), "full", TRUE)}
+    \* per-element alignment of repeated fields, counted and until-terminated
+    \cup {VDecl([C0 |-> Class(DefaultOpts, <<U1("t"), RepUntilF("r", U1("e"), u, NoCond, al), U1("z")>>)], "full", 0, FALSE) :
+             u \in UntilInt, al \in {2, 3}}
+    \cup {VDecl([C0 |-> Class(DefaultOpts, <<U1("n"), RepCountF("r", IntF("e", 3, FALSE, "default"), SzField("n"), NoCond, 2), U1("z")>>)], "full", 0, FALSE)}
 
 \* pack side of C03 (every-change subset): fixed runs, a descriptor on a vectorised field, nested packets
 U_C03V(zz) == {V1(<<IntF("a", n, sg, e), IntF("b", 2, FALSE, "little"), DataF("d", SzConst(2)), U1("z")>>, "full", FALSE) :
@@ -99,6 +110,8 @@ U_C12V(zz) ==
 U_C07V(zz) == {V1(BitFields(ws), "full", TRUE) : ws \in {<<4, 4>>, <<3, 5>>, <<1, 7>>, <<1, 6, 1>>, <<8>>}}
           \cup {V1(BitFields(ws), "full", FALSE) : ws \in {<<12, 4>>, <<4, 12>>, <<1, 22, 1>>, <<12, 12>>, <<5, 6, 5>>}}
           \cup {V1(<<U1("pre")>> \o BitFields(<<3, 5>>) \o <<U1("post")>>, "full", FALSE)}
+          \* a pack that fails in the middle of a run must leave nothing behind for the packs that follow
+          \cup {V1(BitFields(ws), "fullbad", FALSE) : ws \in {<<2, 3, 3>>, <<4, 8, 4>>}}
 
 \* -------------------------------------------------------------------- C20
 U_C20(zz) == {EqDecl([C0 |-> Class(DefaultOpts, <<U1("a"), IntF("b", 2, TRUE, "little"), DataF("d", SzField("a"))>>)]),
@@ -132,7 +145,13 @@ U_C19(zz) ==
                         "lambda", SubV(5, 0))>>), C1 |-> SubD], "subsets", 0, FALSE),
      VDecl([C0 |-> Class(DefaultOpts, <<U1("t"), RefSelF("v", EF("t"), <<[key |-> 0, alt |-> IntF("", 2, FALSE, "default")],
                                                                           [key |-> 1, alt |-> RefF("", "C1")]>>, "chooses", IntV(3)),
-                                        DataF("m", SzMarker(<<0>>, FALSE, TRUE)), EmF("tail")>>), C1 |-> SubD], "subsets", 0, FALSE)}
+                                        DataF("m", SzMarker(<<0>>, FALSE, TRUE)), EmF("tail")>>), C1 |-> SubD], "subsets", 0, FALSE),
+     \* described fields: a keyword naming one forces its value (it reads and packs as given), otherwise it is computed
+     V1(<<WithDesc(WithDflt(U1("n"), 9), [kind |-> "autolen", of |-> "d"]), WithDflt(DataF("d", SzMarker(<<0>>, FALSE, TRUE)), <<65, 66>>), U1("z")>>,
+        "subsets", FALSE),
+     V1(<<U1("a"), WithDesc(IntF("s", 2, FALSE, "default"), [kind |-> "auto", e |-> EBin("add", EF("a"), EC(1))]),
+          WithDesc(U1("k"), [kind |-> "autolen", of |-> "r"]), [RepCountF("r", U1("e"), SzField("k"), NoCond, 0) EXCEPT !.dflt = <<IntV(1), IntV(2)>>]>>,
+        "subsets", FALSE)}
 
 \* universes take a dummy parameter so that TLC does not evaluate all of them at start-up; a profile names the one it explores
 PickUV(n) ==
